@@ -37,6 +37,7 @@
 #include <linux/audit.h>
 #include <linux/filter.h>
 #include <linux/seccomp.h>
+#include <deque>
 #include <map>
 #include <set>
 #include <sstream>
@@ -104,6 +105,9 @@ struct VProc {
   long sysno = -1;
   std::map<int, Fault> faults;
   long priority = 0;         // pct
+  int promoteForks = 0;      // the next N fork()s of the leader become virtual processes of their own (forked workers)
+  bool forkedWorker = false; // created by such a fork; parked at birth with the pseudo system call "forked"
+  int parentV = -1;
 };
 
 static std::string ROOT, OUT, CLOCKFILE, STRATEGY = "rtb";
@@ -111,7 +115,7 @@ static std::vector<std::string> transparentPaths, countedExecs;
 static uint64_t SEED = 1, CLOCK0 = 0, TICK = 1000000;
 static long MAXSTEPS = 4000;
 static long sargs[4] = {10, 8, 0, 0};
-static std::vector<VProc> V;
+static std::deque<VProc> V;    // (deque: references stay valid when forked workers are appended)
 static std::map<long, int> switches;
 static std::map<pid_t, int> task2v;
 static std::set<pid_t> pendingStops;
@@ -487,6 +491,16 @@ static void runUntilPark(VProc &v, pid_t exitOf = 0, long *exitResult = 0, bool 
         if (execC) v.compilerExecs++;
       }
       if (!point) { ptrace(PTRACE_CONT, tid, 0, 0); continue; }
+      {
+        // "open <root>/.sim-fork-workers-<N>": the workload announces that its next N fork()s create worker processes
+        // which are to be scheduled as virtual processes of their own (state inherited through fork, own schedule)
+        size_t mk = desc.find(".sim-fork-workers-");
+        if (mk != std::string::npos && desc.compare(0, 5, "open ") == 0) {
+          v.promoteForks = atoi(desc.c_str() + mk + 18);
+          ptrace(PTRACE_CONT, tid, 0, 0);
+          continue;
+        }
+      }
       v.parked = true; v.parkedTid = tid; v.desc = desc; v.sysno = (long) r.orig_rax;
       return;
     }
@@ -494,6 +508,28 @@ static void runUntilPark(VProc &v, pid_t exitOf = 0, long *exitResult = 0, bool 
       unsigned long nt = 0;
       ptrace(PTRACE_GETEVENTMSG, tid, 0, &nt);
       pid_t c = (pid_t) nt;
+      if (v.promoteForks > 0 && tid == v.leader && event == PTRACE_EVENT_FORK) {
+        // a forked worker: a new virtual process, parked at birth (it stays in its initial stop until it is picked)
+        --v.promoteForks;
+        if (!pendingStops.erase(c)) {
+          int cst = 0;
+          if (waitpid(c, &cst, __WALL) != c || !WIFSTOPPED(cst)) die("forked worker did not stop");
+        }
+        VProc nv;
+        nv.id = (int) V.size();
+        nv.leader = c;
+        nv.tasks.insert(c);
+        nv.started = true;
+        nv.forkedWorker = true;
+        nv.parentV = v.id;
+        nv.parked = true; nv.parkedTid = c; nv.desc = "forked"; nv.sysno = -1;
+        nv.priority = (long) rng.below(1000000) + 1;
+        nv.delay = 0;
+        task2v[c] = nv.id;
+        V.push_back(nv);
+        ptrace(PTRACE_CONT, tid, 0, 0);
+        continue;
+      }
       v.tasks.insert(c);
       task2v[c] = v.id;
       if (v.transparentTasks.count(tid)) v.transparentTasks.insert(c);
@@ -614,7 +650,8 @@ int main(int argc, char **argv) {
     std::vector<int> parked;
     for (VProc &v : V) if (v.parked) parked.push_back(v.id);
     bool startedOne = false;
-    for (VProc &v : V) {
+    for (size_t vidx = 0; vidx < V.size(); ++vidx) {      // (by index: forked workers may be appended while a vproc runs)
+      VProc &v = V[vidx];
       if (!v.started && (v.delay <= gstep || (parked.empty() && !startedOne))) {
         bool earliest = true;
         if (v.delay > gstep) for (VProc &w : V) if (!w.started && w.delay < v.delay) earliest = false;
@@ -666,6 +703,18 @@ int main(int argc, char **argv) {
       if (ptrace(PTRACE_SETREGS, tid, 0, &r)) die("SETREGS torn");
       char b[64]; snprintf(b, sizeof(b), " TORN %lu/%lu", n2, n);
       faultNote = b;
+    }
+    if (v.sysno == -1 && v.forkedWorker && v.desc == "forked") {
+      // first scheduling of a forked worker: release it from its initial stop and run it to its first scheduling point
+      v.parked = false;
+      v.desc = "";
+      fprintf(logf, "%ld v%d %ld 0 forked from v%d = ok\n", gstep, v.id, v.vstep, v.parentV);
+      ++v.vstep;
+      if (ptrace(PTRACE_CONT, tid, 0, 0)) die("PTRACE_CONT forked worker: %s", strerror(errno));
+      runUntilPark(v);
+      if (v.done) fprintf(logf, "%ld v%d exit status=%d sig=%d\n", gstep, v.id, v.exitStatus, v.termSig);
+      ++gstep;
+      continue;
     }
     v.parked = false;
     const std::string desc = v.desc;
